@@ -82,6 +82,10 @@ def shown (q : Nat × Float) : Float := if q.1 == 90 || q.1 == 91 then 1 - (1 - 
 def statsStr (l : List (Nat × Float)) : String :=
   "|".intercalate ((sortStats l).map fun q => s!"{q.1}:{Wire.fstr (shown q)}")
 
+/-- the instance's own entries as stored (zero-valued ones included), by property -/
+def rawStatsStr (l : List (Nat × Float)) : String :=
+  "|".intercalate ((l.mergeSort fun a b => a.1 ≤ b.1).map fun q => s!"{q.1}:{Wire.fstr q.2}")
+
 def instInto (r : Rec) (i : Inst Float) : Rec :=
   r.addI "name" i.name |>.addI "src" i.source |>.addI "dur" i.dur |>.addI "count" i.count |>.addI "max" i.maxCount
     |>.addI "cadd" i.countAdd |>.addS "stats" (statsStr i.stats)
@@ -123,7 +127,7 @@ def listRec (cat : Catalog Float) (s : St Float) (t : Int) : Rec :=
     |>.addIs "cadds" (joinI (·.countAdd))
     |>.addS "imms" (",".intercalate (l.map fun i => if i.tickImm then "1" else "0"))
     |>.addS "p2" (",".intercalate (l.map fun i => if i.canTickP2 then "1" else "0"))
-    |>.addS "stats" (";".intercalate (l.map fun i => if (statsStr i.stats) == "" then "-" else statsStr i.stats))
+    |>.addS "stats" (";".intercalate (l.map fun i => if (rawStatsStr i.stats) == "" then "-" else rawStatsStr i.stats))
     |>.addF "atkpct" atkpct |>.addF "reduce" (propTotal (baseOf t) l 90)
     |>.addF "atk" (if out < 0 then 0 else out) |>.addF "spd" (spdOf (baseOf t) l) |>.addF "cc" (propTotal (baseOf t) l 17)
     |>.addS "weaks" (";".intercalate (l.map fun i => weakStr i.weak))
